@@ -25,7 +25,7 @@ func init() {
 	registry["C03"] = func() []*seqmc.Spec {
 		// (values, ids, cap, fromSliceLen)
 		type cfg struct {
-			name             string
+			name               string
 			vals, ids, cap, fs int
 		}
 		cfgs := []cfg{{"Heap[int]", 3, 1, 6, 3}, {"Heap[struct,ties]", 2, 2, 5, 2}}
@@ -375,7 +375,6 @@ func (s *heapSys) Observe(c *seqmc.Ctx) {
 }
 
 var latentHeapOrder atomic.Int64
-
 
 func (s *heapSys) Key() string { return seqmc.Dump(s.h) + "|" + s.cmp + msKey(s.model) }
 
